@@ -2398,7 +2398,7 @@ func famBundle(r *Rng, o *Out, tier string) {
 		w.dischargeLocationEpisode()
 		w.dupAttenuationEpisode()
 		w.sharedDischargeEpisode()
-		if e%50 == 7 {
+		if e%10 == 7 {
 			w.largeVerifiedSetEpisode()
 		}
 		if r.Chance(1, 3) {
